@@ -41,6 +41,7 @@ Record uinv (l0 : lnk) (nw : Z) (qq : list timer) (j : nat) (o : op) : Prop := {
   u_set : ph o <> PNew -> links o = LSet /\ exists d, orig o = Some d;
   u_orig : ph o <> PNew -> sreq o = false -> orig o = Some (dueT o);
   u_reg : cbreg o = true -> ph o = PQueued /\ sreq o = false;
+  u_reg2 : ph o = PQueued -> sreq o = false -> cbreg o = true;
   u_cancel : sreq o = true -> ph o = PQueued -> dueT o <= nw
 }.
 
@@ -54,7 +55,7 @@ Definition Inv (l0 : lnk) (s : st) : Prop :=
 Lemma uinv_frame : forall l0 nw nw' qq qq' j o,
   uinv l0 nw qq j o -> nw <= nw' -> cnt j qq' = cnt j qq -> uinv l0 nw' qq' j o.
 Proof.
-  intros l0 nw nw' qq qq' j o [h1 h2 h3 h4 h5 h6 h7] Hn Hc.
+  intros l0 nw nw' qq qq' j o [h1 h2 h3 h4 h5 h6 h6' h7] Hn Hc.
   constructor; auto; [congruence|]. intros A B. specialize (h7 A B). lia.
 Qed.
 
@@ -94,8 +95,8 @@ Qed.
 Ltac ufields := unfold pq, pd in *; cbn in *.
 Ltac urebuild Hold :=
   let h1 := fresh "h" in let h2 := fresh "h" in let h3 := fresh "h" in let h4 := fresh "h" in
-  let h5 := fresh "h" in let h6 := fresh "h" in let h7 := fresh "h" in
-  destruct Hold as [h1 h2 h3 h4 h5 h6 h7];
+  let h5 := fresh "h" in let h6 := fresh "h" in let h7 := fresh "h" in let h8 := fresh "h" in
+  destruct Hold as [h1 h2 h3 h4 h5 h6 h8 h7];
   constructor; ufields;
   repeat match goal with H : ?x = _ |- _ => rewrite H in * end; cbn in *;
   try solve [intuition (try congruence; try lia; eauto)].
@@ -118,24 +119,344 @@ Proof.
   - intros j Hj. rewrite cnt_insert. cbn. assert (Nat.eqb i j = false) as -> by (apply Nat.eqb_neq; congruence). reflexivity.
 Qed.
 
-Lemma start_inv : forall l0 i s s' evs, Inv l0 s -> step_start i s = Some (s', evs) -> crashed s' = false -> Inv l0 s'.
+
+Ltac usolve := try solve [intuition (try congruence; try lia; eauto)].
+
+Lemma start_inv : forall l0 i s s' evs, l0 <> LSet -> Inv l0 s -> crashed s = false -> step_start i s = Some (s', evs) -> Inv l0 s'.
 Proof.
-  intros l0 i s s' evs HI H Hcr. unfold step_start in H.
+  intros l0 i s s' evs Hl0 HI Hcs H. unfold step_start in H.
   destruct (nth_error (ops s) i) as [o|] eqn:Hn; [|discriminate].
   pose proof HI as [Hs [Hnd [Hq [Hl Ho]]]]. pose proof (Ho i o Hn) as Hold.
   destruct (ph o) eqn:Hp; try discriminate.
   assert (Hc0 : cnt i (q s) = 0%nat) by (rewrite (u_cnt _ _ _ _ _ Hold); unfold pq; rewrite Hp; reflexivity).
+  destruct (u_new _ _ _ _ _ Hold Hp) as [Hog [Hcb Hlk]].
   destruct (sreq o) eqn:Hr.
   - unfold cancel_cb in H. cbn [dueT upd] in H.
     destruct (now s <? (if o_after o then now s + o_t o else o_t o)) eqn:El.
     + cbn [links upd] in H. destruct (links o) eqn:Hk.
-      * cbn in H. inversion H; subst. cbn in Hcr. discriminate.
-      * cbn in H. destruct (crashed s) eqn:Ec; inversion H; subst; clear H; [cbn in Hcr; congruence|].
+      * cbn in H. inversion H; subst. exact HI.
+      * cbn in H. destruct (crashed s) eqn:Ec; inversion H; subst; clear H; [congruence|].
         eapply inv_enqueue with (1 := HI) (2 := Hn) (d := now s); [exact Hc0 | reflexivity | reflexivity | reflexivity | reflexivity | reflexivity | ].
-        urebuild Hold; rewrite ?cnt_insert in *; cbn in *; rewrite ?Nat.eqb_refl in *; try solve [intuition (try congruence; try lia; eauto)].
-      * exfalso. destruct (u_new _ _ _ _ _ Hold Hp) as [_ [_ Hx]]. destruct (u_set _ _ _ _ _ Hold) as [Hy _]; [|congruence].
-        (* links = LSet at PNew only if l0 = LSet: then the model unlinks nothing *) 
-        admit.
-    + admit.
-  - admit.
-Admitted.
+        destruct Hold as [h1 h2 h3 h4 h5 h6 h8 h7]. constructor; unfold pq, pd in *; cbn; rewrite ?cnt_insert; cbn; rewrite ?Nat.eqb_refl; rewrite ?Hp in *; usolve.
+      * congruence.
+    + apply Z.ltb_ge in El. cbn in H. destruct (crashed s) eqn:Ec; inversion H; subst; clear H; [congruence|].
+      eapply inv_enqueue with (1 := HI) (2 := Hn) (d := (if o_after o then now s + o_t o else o_t o)); [exact Hc0 | reflexivity | reflexivity | reflexivity | reflexivity | reflexivity | ].
+      destruct Hold as [h1 h2 h3 h4 h5 h6 h8 h7]. constructor; unfold pq, pd in *; cbn; rewrite ?cnt_insert; cbn; rewrite ?Nat.eqb_refl; rewrite ?Hp in *; usolve.
+  - inversion H; subst; clear H.
+    eapply inv_enqueue with (1 := HI) (2 := Hn) (d := (if o_after o then now s + o_t o else o_t o)); [exact Hc0 | reflexivity | reflexivity | reflexivity | reflexivity | reflexivity | ].
+    destruct Hold as [h1 h2 h3 h4 h5 h6 h8 h7]. constructor; unfold pq, pd in *; cbn; rewrite ?cnt_insert; cbn; rewrite ?Nat.eqb_refl; rewrite ?Hp in *; usolve.
+Qed.
+
+Lemma stop_inv : forall l0 i s s' evs, l0 <> LSet -> Inv l0 s -> crashed s = false -> step_stop i s = Some (s', evs) -> Inv l0 s'.
+Proof.
+  intros l0 i s s' evs Hl0 HI Hcs H. unfold step_stop in H.
+  destruct (nth_error (ops s) i) as [o|] eqn:Hn; [|discriminate].
+  pose proof HI as [Hs [Hnd [Hq [Hl Ho]]]]. pose proof (Ho i o Hn) as Hold.
+  destruct (sreq o) eqn:Hr; [discriminate|].
+  destruct (cbreg o) eqn:Hc.
+  - destruct (u_reg _ _ _ _ _ Hold Hc) as [Hp _].
+    destruct (u_set _ _ _ _ _ Hold) as [Hk _]; [congruence|].
+    unfold cancel_cb in H. cbn [dueT upd links] in H. rewrite Hk in H.
+    destruct (now s <? dueT o) eqn:El.
+    + apply Z.ltb_lt in El. cbn in H. destruct (crashed s) eqn:Ec; inversion H; subst; clear H; [congruence|].
+      assert (H1 : (1 <= cnt i (q s))%nat) by (rewrite (u_cnt _ _ _ _ _ Hold); unfold pq; rewrite Hp; lia).
+      pose proof (cnt_remove_same i (q s) H1) as Hrm.
+      assert (Hone : cnt i (q s) = 1%nat) by (rewrite (u_cnt _ _ _ _ _ Hold); unfold pq; rewrite Hp; reflexivity).
+      eapply inv_step_op with (1 := HI) (2 := Hn); [reflexivity | reflexivity | reflexivity | | | | | ]; cbn [q now ops lastTime put set_q].
+      * apply insert_timed_sorted, heap_remove_sorted, Hs.
+      * apply (requeue_NoDup_ids i (now s) (q s) Hnd).
+      * intros x Hx. apply insert_timed_In in Hx. destruct Hx as [-> | Hx].
+        -- eexists. cbn. unfold set_nth. rewrite (nth_set_nth_eq _ _ _ _ Hn). split; reflexivity.
+        -- eapply (uqdue_put_absent (heap_remove i (q s)) (ops s) i); [ | apply heap_remove_gone, Hnd | exact Hx].
+           intros y Hy. apply Hq. eapply In_heap_remove; eauto.
+      * intros j Hj. rewrite cnt_insert. cbn. assert (Nat.eqb i j = false) as -> by (apply Nat.eqb_neq; congruence).
+        cbn. apply cnt_remove_other. congruence.
+      * destruct Hold as [h1 h2 h3 h4 h5 h6 h8 h7]. constructor; unfold pq, pd in *; cbn; rewrite ?cnt_insert; cbn;
+          rewrite ?Nat.eqb_refl; rewrite ?Hp in *; usolve.
+    + apply Z.ltb_ge in El. cbn in H. destruct (crashed s) eqn:Ec; inversion H; subst; clear H; [congruence|].
+      eapply inv_step_op with (1 := HI) (2 := Hn); [reflexivity | reflexivity | reflexivity | exact Hs | exact Hnd | | auto | ]; cbn [q now ops lastTime put set_q].
+      * eapply uqdue_put_same; eauto.
+      * destruct Hold as [h1 h2 h3 h4 h5 h6 h8 h7]. constructor; unfold pq, pd in *; cbn; rewrite ?Hp in *; usolve.
+  - inversion H; subst; clear H.
+    eapply inv_step_op with (1 := HI) (2 := Hn); [reflexivity | reflexivity | reflexivity | exact Hs | exact Hnd | | auto | ]; cbn [q now ops lastTime put set_q].
+    + eapply uqdue_put_same; eauto.
+    + destruct Hold as [h1 h2 h3 h4 h5 h6 h8 h7]. constructor; unfold pq, pd in *; cbn; usolve.
+Qed.
+
+Lemma loop_inv : forall l0 s s' evs, Inv l0 s -> step_loop s = Some (s', evs) -> Inv l0 s'.
+Proof.
+  intros l0 s s' evs HI H. unfold step_loop in H. pose proof HI as [Hs [Hnd [Hq [Hl Ho]]]].
+  destruct (inloop s).
+  2:{ inversion H; subst; clear H. split; [exact Hs|]. split; [exact Hnd|]. split; [exact Hq|]. split; [cbn; lia|]. exact Ho. }
+  destruct (q s) as [|x tl] eqn:Eq.
+  { inversion H; subst; clear H. unfold Inv. cbn. split; [exact Hs|]. split; [exact Hnd|]. split; [exact Hq|]. split; [exact Hl|exact Ho]. }
+  destruct (nth_error (ops s) (id x)) as [o|] eqn:Hn; [|discriminate].
+  inversion H; subst; clear H.
+  set (lt1 := if lastTime s <? due x then now s else lastTime s).
+  set (now2 := if lt1 <? due x then Z.max (now s) (due x) else now s).
+  assert (Hlt1 : lt1 <= now s) by (unfold lt1; destruct (lastTime s <? due x); lia).
+  assert (Hn2 : now s <= now2) by (unfold now2; destruct (lt1 <? due x); lia).
+  pose proof (Ho _ _ Hn) as Hold.
+  assert (Hc1 : cnt (id x) (x :: tl) = 1%nat).
+  { pose proof (cnt_nodup_le1 (id x) _ Hnd). rewrite cnt_cons, Nat.eqb_refl in *. lia. }
+  assert (Hc0 : cnt (id x) tl = 0%nat) by (rewrite cnt_cons, Nat.eqb_refl in Hc1; lia).
+  assert (Hp : ph o = PQueued).
+  { pose proof (u_cnt _ _ _ _ _ Hold) as Hu. rewrite Hc1 in Hu. unfold pq in Hu. destruct (ph o); try discriminate; reflexivity. }
+  split; [eapply sorted_due_tail; exact Hs|]. split; [inversion Hnd; assumption|]. cbn [q ops now lastTime]. split; [|split].
+  - apply uqdue_put_absent; [|apply cnt_zero_notin, Hc0]. intros y Hy. apply Hq. right. exact Hy.
+  - fold lt1. fold now2. destruct (lt1 <? due x); lia.
+  - fold lt1. fold now2. intros j o'' Hj. destruct (Nat.eq_dec (id x) j) as [E|E].
+    + subst j. unfold set_nth in Hj. rewrite (nth_set_nth_eq _ _ _ _ Hn) in Hj. inversion Hj; subst o''.
+      destruct Hold as [h1 h2 h3 h4 h5 h6 h8 h7]. constructor; unfold pq, pd in *; cbn; rewrite ?Hp in *; usolve.
+    + unfold set_nth in Hj. rewrite nth_set_nth_neq in Hj by exact E.
+      eapply uinv_frame; [apply Ho, Hj | exact Hn2 | ]. rewrite cnt_cons. apply Nat.eqb_neq in E. rewrite E. reflexivity.
+Qed.
+
+Lemma clock_inv : forall l0 k s s' evs, Inv l0 s -> step_clock k s = Some (s', evs) -> Inv l0 s'.
+Proof.
+  intros l0 k s s' evs [Hs [Hnd [Hq [Hl Ho]]]] H. unfold step_clock in H. inversion H; subst; clear H.
+  split; [exact Hs|]. split; [exact Hnd|]. split; [exact Hq|]. split; [cbn; lia|].
+  cbn. intros j o Hj. eapply uinv_frame; [apply Ho, Hj | lia | reflexivity].
+Qed.
+
+Lemma step_inv : forall l0 s t s' evs, l0 <> LSet -> Inv l0 s -> step t s = Some (s', evs) -> Inv l0 s'.
+Proof.
+  intros l0 s t s' evs Hl0 HI H. unfold step in H. destruct (crashed s) eqn:Hcs; [discriminate|].
+  destruct (Nat.eqb t 0); [eapply loop_inv; eauto|].
+  destruct (Nat.leb t (nops s)); [eapply start_inv; eauto|].
+  destruct (Nat.leb t (2 * nops s)); [eapply stop_inv; eauto|].
+  eapply clock_inv; eauto.
+Qed.
+
+Lemma init_inv : forall l0 now0 specs, Inv l0 (init l0 now0 specs).
+Proof.
+  intros l0 now0 specs. split; [reflexivity|]. split; [constructor|]. split; [intros x []|]. split; [cbn; lia|].
+  cbn. intros j o Hj. apply nth_error_In in Hj. apply in_map_iff in Hj.
+  destruct Hj as [sp [<- _]]. constructor; cbn; try reflexivity; try discriminate; auto; congruence.
+Qed.
+
+Theorem inv_run : forall l0 now0 specs sched, l0 <> LSet ->
+  Inv l0 (fst (run step sched (init l0 now0 specs, []))).
+Proof.
+  intros. apply (run_invariant_state _ _ _ step (Inv l0)); [|apply init_inv].
+  intros s t s' ev HI Hs. eapply step_inv; eauto.
+Qed.
+(* ------------------------------------------------------------------------------------------- *)
+(* effect of one step on the ghosts; events                                                     *)
+
+Definition is_comp (j : nat) (e : ev) : bool :=
+  match e with EFire i _ | EDone i _ => Nat.eqb i j | _ => false end.
+Definition ccount (j : nat) (tr : list ev) : nat := length (filter (is_comp j) tr).
+
+Lemma ccount_app : forall j a b, ccount j (a ++ b) = (ccount j a + ccount j b)%nat.
+Proof. intros. unfold ccount. rewrite filter_app, app_length. reflexivity. Qed.
+
+Definition ueffect (l0 : lnk) (s s' : st) (evs : list ev) : Prop :=
+  length (ops s') = length (ops s) /\
+  (forall j t, In (EFire j t) evs -> exists o d, nth_error (ops s) j = Some o /\ orig o = Some d /\ d <= t) /\
+  (forall j, In (EUninit j) evs -> l0 = LUninit) /\
+  forall j o, nth_error (ops s) j = Some o ->
+    exists o', nth_error (ops s') j = Some o' /\ (ph o <> PNew -> orig o' = orig o) /\
+               ncomp o' = (ncomp o + ccount j evs)%nat.
+
+Lemma ueff_put : forall l0 s s' i o o' evs,
+  nth_error (ops s) i = Some o -> ops s' = set_nth i o' (ops s) ->
+  (ph o <> PNew -> orig o' = orig o) -> ncomp o' = (ncomp o + ccount i evs)%nat ->
+  (forall j, j <> i -> ccount j evs = 0%nat) ->
+  (forall j t, In (EFire j t) evs -> exists o d, nth_error (ops s) j = Some o /\ orig o = Some d /\ d <= t) ->
+  (forall j, In (EUninit j) evs -> l0 = LUninit) ->
+  ueffect l0 s s' evs.
+Proof.
+  intros l0 s s' i o o' evs Hn Eo Ho Hc Hz Hf Hu. split; [rewrite Eo; apply length_set_nth|]. split; [exact Hf|]. split; [exact Hu|].
+  intros j o1 Hj. rewrite Eo. destruct (Nat.eq_dec i j) as [E|E].
+  - subst j. rewrite Hn in Hj. inversion Hj; subst o1. exists o'. unfold set_nth. rewrite (nth_set_nth_eq _ _ _ _ Hn). auto.
+  - exists o1. unfold set_nth. rewrite nth_set_nth_neq by exact E. repeat split; auto. rewrite Hz by congruence. lia.
+Qed.
+
+Lemma ueff_same : forall l0 s s' evs,
+  ops s' = ops s -> (forall j, ccount j evs = 0%nat) -> (forall j t, ~ In (EFire j t) evs) ->
+  (forall j, In (EUninit j) evs -> l0 = LUninit) -> ueffect l0 s s' evs.
+Proof.
+  intros l0 s s' evs Eo Hz Hf Hu. split; [rewrite Eo; reflexivity|]. split; [intros j t H; exfalso; eapply Hf; eauto|]. split; [exact Hu|].
+  intros j o Hj. exists o. rewrite Eo. repeat split; auto. rewrite Hz. lia.
+Qed.
+
+Ltac nofire := cbn; intros; intuition discriminate.
+
+Lemma step_effect : forall l0 s t s' evs, l0 <> LSet -> Inv l0 s -> step t s = Some (s', evs) -> ueffect l0 s s' evs.
+Proof.
+  intros l0 s t s' evs Hl0 HI H. pose proof HI as [Hs [Hnd [Hq [Hl Ho]]]].
+  unfold step in H. destruct (crashed s) eqn:Hcs; [discriminate|].
+  destruct (Nat.eqb t 0).
+  { unfold step_loop in H. destruct (inloop s).
+    2:{ inversion H; subst; clear H. eapply ueff_same; [reflexivity | intros; reflexivity | nofire | nofire]. }
+    destruct (q s) as [|x tl] eqn:Eq.
+    { inversion H; subst; clear H. eapply ueff_same; [reflexivity | intros; reflexivity | nofire | nofire]. }
+    destruct (nth_error (ops s) (id x)) as [o|] eqn:Hn; [|discriminate]. inversion H; subst; clear H.
+    set (lt1 := if lastTime s <? due x then now s else lastTime s).
+    set (now2 := if lt1 <? due x then Z.max (now s) (due x) else now s).
+    assert (Hge : due x <= now2).
+    { unfold now2. destruct (lt1 <? due x) eqn:E; [lia|]. apply Z.ltb_ge in E. unfold lt1 in *. destruct (lastTime s <? due x); lia. }
+    pose proof (Ho _ _ Hn) as Hold.
+    assert (Hp : ph o = PQueued).
+    { pose proof (u_cnt _ _ _ _ _ Hold) as Hu. rewrite cnt_cons, Nat.eqb_refl in Hu. unfold pq in Hu. destruct (ph o); try discriminate; reflexivity. }
+    destruct (Hq x (or_introl eq_refl)) as [o1 [E1 E2]]. rewrite Hn in E1. inversion E1; subst o1.
+    eapply ueff_put with (1 := Hn); [reflexivity | cbn; auto | | | | intros j Hin; destruct (sreq o); cbn in Hin; destruct Hin as [Hin|[]]; discriminate].
+    - cbn. unfold ccount. destruct (sreq o); cbn; rewrite Nat.eqb_refl; cbn; lia.
+    - intros j Hj. unfold ccount. destruct (sreq o); cbn; (assert (Nat.eqb (id x) j = false) as -> by (apply Nat.eqb_neq; congruence)); reflexivity.
+    - intros j t0 Hin. destruct (sreq o) eqn:Er; cbn in Hin; destruct Hin as [Hin|[]]; [discriminate|]. inversion Hin; subst.
+      exists o, (dueT o). split; [exact Hn|]. split; [|fold lt1; fold now2; lia].
+      apply (u_orig _ _ _ _ _ Hold); [congruence | exact Er]. }
+  destruct (Nat.leb t (nops s)).
+  { unfold step_start in H. remember (t - 1)%nat as i. clear Heqi.
+    destruct (nth_error (ops s) i) as [o|] eqn:Hn; [|discriminate].
+    pose proof (Ho _ _ Hn) as Hold.
+    destruct (ph o) eqn:Hp; try discriminate.
+    destruct (u_new _ _ _ _ _ Hold Hp) as [Hog [Hcb Hlk]].
+    destruct (sreq o) eqn:Hr.
+    - unfold cancel_cb in H. cbn [dueT upd] in H.
+      destruct (now s <? (if o_after o then now s + o_t o else o_t o)).
+      + cbn [links upd] in H. destruct (links o) eqn:Hk.
+        * cbn in H. inversion H; subst; clear H.
+          eapply ueff_same; [reflexivity | intros; reflexivity | nofire | intros j _; congruence].
+        * cbn in H. rewrite Hcs in H. inversion H; subst; clear H.
+          eapply ueff_put with (1 := Hn); [reflexivity | congruence | cbn; lia | intros; reflexivity | nofire | nofire].
+        * congruence.
+      + cbn in H. rewrite Hcs in H. inversion H; subst; clear H.
+        eapply ueff_put with (1 := Hn); [reflexivity | congruence | cbn; lia | intros; reflexivity | nofire | nofire].
+    - inversion H; subst; clear H.
+      eapply ueff_put with (1 := Hn); [reflexivity | congruence | cbn; lia | intros; reflexivity | nofire | nofire]. }
+  destruct (Nat.leb t (2 * nops s)).
+  { unfold step_stop in H. remember (t - 1 - nops s)%nat as i. clear Heqi.
+    destruct (nth_error (ops s) i) as [o|] eqn:Hn; [|discriminate].
+    pose proof (Ho _ _ Hn) as Hold.
+    destruct (sreq o) eqn:Hr; [discriminate|].
+    destruct (cbreg o) eqn:Hc.
+    - destruct (u_reg _ _ _ _ _ Hold Hc) as [Hp _].
+      destruct (u_set _ _ _ _ _ Hold) as [Hk _]; [congruence|].
+      unfold cancel_cb in H. cbn [dueT upd links] in H. rewrite Hk in H.
+      destruct (now s <? dueT o); cbn in H; rewrite Hcs in H; inversion H; subst; clear H;
+        (eapply ueff_put with (1 := Hn); [reflexivity | cbn; auto | cbn; lia | intros; reflexivity | nofire | nofire]).
+    - inversion H; subst; clear H.
+      eapply ueff_put with (1 := Hn); [reflexivity | cbn; auto | cbn; lia | intros; reflexivity | nofire | nofire]. }
+  unfold step_clock in H. inversion H; subst; clear H.
+  eapply ueff_same; [reflexivity | intros; reflexivity | nofire | nofire].
+Qed.
+
+(* ------------------------------------------------------------------------------------------- *)
+(* invariant over configurations and the theorems                                               *)
+
+Definition fire_ok (s : st) (e : ev) : Prop :=
+  match e with
+  | EFire i t => exists o d, nth_error (ops s) i = Some o /\ orig o = Some d /\ d <= t
+  | _ => True
+  end.
+
+Definition TInv (l0 : lnk) (c : st * list ev) : Prop :=
+  Inv l0 (fst c) /\
+  (forall j o, nth_error (ops (fst c)) j = Some o -> ccount j (snd c) = ncomp o) /\
+  Forall (fire_ok (fst c)) (snd c) /\
+  (existsb is_uninit (snd c) = true -> l0 = LUninit).
+
+Lemma existsb_uninit_app : forall a b, existsb is_uninit (a ++ b) = existsb is_uninit a || existsb is_uninit b.
+Proof. intros. apply existsb_app. Qed.
+
+Lemma tinv_step : forall l0 c t s' evs, l0 <> LSet ->
+  TInv l0 c -> step t (fst c) = Some (s', evs) -> TInv l0 (s', snd c ++ evs).
+Proof.
+  intros l0 [s tr] t s' evs Hl0 [HI [Hc [Hf Hu]]] H. cbn [fst snd] in *.
+  pose proof (step_effect _ _ _ _ _ Hl0 HI H) as [Hlen [Hex [Hun Heff]]].
+  split; [eapply step_inv; eauto|]. split; [|split].
+  - cbn [fst snd]. intros j o' Hj.
+    assert (exists o, nth_error (ops s) j = Some o) as [o Ho].
+    { destruct (nth_error (ops s) j) eqn:E; [eauto|]. apply nth_error_None in E.
+      assert (nth_error (ops s') j <> None) as Hx by congruence. apply nth_error_Some in Hx. lia. }
+    destruct (Heff j o Ho) as [o'' [E1 [_ E3]]]. rewrite Hj in E1. inversion E1; subst o''.
+    rewrite ccount_app, (Hc j o Ho). lia.
+  - cbn [fst snd]. apply Forall_app. split.
+    + eapply Forall_impl; [|exact Hf]. intros e He. destruct e; cbn in *; auto.
+      destruct He as [o [d [E1 [E2 E3]]]]. destruct (Heff i o E1) as [o' [F1 [F2 _]]].
+      exists o', d. split; [exact F1|]. split; [|exact E3]. rewrite F2; [exact E2|].
+      intros Hp. destruct (u_new _ _ _ _ _ (proj2 (proj2 (proj2 (proj2 HI))) i o E1) Hp) as [Hx _]. congruence.
+    + apply Forall_forall. intros e He. destruct e; cbn; auto.
+      destruct (Hex i t0 He) as [o [d [E1 [E2 E3]]]]. destruct (Heff i o E1) as [o' [F1 [F2 _]]].
+      exists o', d. split; [exact F1|]. split; [|exact E3]. rewrite F2; [exact E2|].
+      intros Hp. destruct (u_new _ _ _ _ _ (proj2 (proj2 (proj2 (proj2 HI))) i o E1) Hp) as [Hx _]. congruence.
+  - cbn [fst snd]. rewrite existsb_uninit_app. intros Hx. apply orb_true_iff in Hx. destruct Hx as [Hx|Hx]; [auto|].
+    apply existsb_exists in Hx. destruct Hx as [e [He1 He2]]. destruct e; try discriminate. eapply Hun; eauto.
+Qed.
+
+Lemma tinv_run : forall l0 now0 specs sched, l0 <> LSet -> TInv l0 (run step sched (init l0 now0 specs, [])).
+Proof.
+  intros l0 now0 specs sched Hl0. apply (run_invariant _ _ _ step (TInv l0)).
+  - intros c t s' ev Hc H. eapply tinv_step; eauto.
+  - split; [apply init_inv|]. split; [|split; [constructor | cbn; discriminate]].
+    cbn. intros j o Hj. apply nth_error_In in Hj. apply in_map_iff in Hj. destruct Hj as [sp [<- _]]. reflexivity.
+Qed.
+
+(* with the link fields initialised to null no schedule reads an uninitialised link *)
+Theorem no_uninit_read_fixed : forall now0 specs sched,
+  existsb is_uninit (snd (run step sched (init LNull now0 specs, []))) = false.
+Proof.
+  intros. destruct (tinv_run LNull now0 specs sched) as [_ [_ [_ Hu]]]; [discriminate|].
+  destruct (existsb is_uninit _); [|reflexivity]. specialize (Hu eq_refl). discriminate.
+Qed.
+
+Theorem never_early : forall l0 now0 specs sched i t, l0 <> LSet ->
+  let c := run step sched (init l0 now0 specs, []) in
+  In (EFire i t) (snd c) ->
+  exists o d, nth_error (ops (fst c)) i = Some o /\ orig o = Some d /\ d <= t.
+Proof.
+  intros l0 now0 specs sched i t Hl0 c Hin. destruct (tinv_run l0 now0 specs sched Hl0) as [_ [_ [Hf _]]].
+  fold c in Hf. rewrite Forall_forall in Hf. apply (Hf _ Hin).
+Qed.
+
+Theorem at_most_once : forall l0 now0 specs sched i o, l0 <> LSet ->
+  let c := run step sched (init l0 now0 specs, []) in
+  nth_error (ops (fst c)) i = Some o ->
+  (ccount i (snd c) <= 1)%nat /\ ccount i (snd c) = ncomp o /\
+  ((1 <= ccount i (snd c))%nat -> ph o = PDone).
+Proof.
+  intros l0 now0 specs sched i o Hl0 c Hn. destruct (tinv_run l0 now0 specs sched Hl0) as [HI [Hc _]]. fold c in HI, Hc.
+  pose proof (u_comp _ _ _ _ _ (proj2 (proj2 (proj2 (proj2 HI))) i o Hn)) as Hh. rewrite (Hc i o Hn), Hh.
+  unfold pd. destruct (ph o); repeat split; try lia; auto.
+Qed.
+
+(* a completed operation is not in the queue and its callback is not registered *)
+Theorem unlinked_after_completion : forall l0 now0 specs sched i o, l0 <> LSet ->
+  let c := run step sched (init l0 now0 specs, []) in
+  nth_error (ops (fst c)) i = Some o -> (1 <= ccount i (snd c))%nat ->
+  ~ In i (map id (q (fst c))) /\ cbreg o = false.
+Proof.
+  intros l0 now0 specs sched i o Hl0 c Hn H1.
+  destruct (at_most_once l0 now0 specs sched i o Hl0 Hn) as [_ [_ Hd]]. fold c in Hd. specialize (Hd H1).
+  destruct (tinv_run l0 now0 specs sched Hl0) as [HI _]. fold c in HI.
+  pose proof (proj2 (proj2 (proj2 (proj2 HI))) i o Hn) as Hu. split.
+  - apply cnt_zero_notin. rewrite (u_cnt _ _ _ _ _ Hu). unfold pq. rewrite Hd. reflexivity.
+  - destruct (cbreg o) eqn:E; [|reflexivity]. destruct (u_reg _ _ _ _ _ Hu E). congruence.
+Qed.
+
+Theorem queue_sorted : forall l0 now0 specs sched, l0 <> LSet ->
+  let s := fst (run step sched (init l0 now0 specs, [])) in
+  sorted_due (q s) /\ NoDup (map id (q s)).
+Proof.
+  intros l0 now0 specs sched Hl0 s. destruct (inv_run l0 now0 specs sched Hl0) as [Hs [Hnd _]]. split; assumption.
+Qed.
+
+(* after request_stop a queued operation is due: its entry and everything in front of it have due <= now,
+   so the next iterations of run_until_empty take them without sleeping *)
+Theorem cancel_prompt : forall l0 now0 specs sched i o, l0 <> LSet ->
+  let s := fst (run step sched (init l0 now0 specs, [])) in
+  nth_error (ops s) i = Some o -> sreq o = true -> ph o = PQueued ->
+  dueT o <= now s /\
+  forall l1 d l2, q s = l1 ++ (d, i) :: l2 -> d = dueT o /\ Forall (fun y => due y <= now s) (l1 ++ [(d, i)]).
+Proof.
+  intros l0 now0 specs sched i o Hl0 s Hn Hr Hp. destruct (inv_run l0 now0 specs sched Hl0) as [Hs [Hnd [Hq [_ Ho]]]].
+  fold s in Hs, Hnd, Hq, Ho. pose proof (u_cancel _ _ _ _ _ (Ho i o Hn) Hr Hp) as Hd. split; [exact Hd|].
+  intros l1 d l2 Eq. rewrite Eq in Hs, Hq.
+  destruct (Hq (d, i)) as [o1 [E1 E2]]; [apply in_or_app; right; left; reflexivity|].
+  cbn in E1, E2. rewrite Hn in E1. inversion E1; subst o1. split; [symmetry; exact E2|].
+  apply Forall_app. split.
+  - eapply Forall_impl; [|apply (sorted_due_before _ _ _ Hs)]. cbn. intros y Hy. lia.
+  - constructor; [cbn; lia | constructor].
+Qed.
